@@ -362,6 +362,17 @@ Proof.
   apply (models_move [] R2 u) in Hm3; [exact Hm3|]. eapply sub_nothing_below; eauto. intros; discriminate.
 Qed.
 
+(** The tree recorded in the working copy is never changed, whatever the disk. *)
+Theorem set_sparse_tree_unchanged : forall f w new, wc_tree (snd (set_sparse f w new)) = wc_tree w.
+Proof.
+  intros f w new. unfold WcC.set_sparse.
+  destruct (o_res (WcC.run_update rn f (wc_states w) (diff_fs (matches_diff new (wc_sparse w)) [] (wc_tree w))));
+    try reflexivity.
+  destruct (o_res (WcC.run_update rn _ _ (diff_fs (matches_diff (wc_sparse w) new) (wc_tree w) [])));
+    try reflexivity.
+  match goal with |- context [if ?b then _ else _] => destruct b end; reflexivity.
+Qed.
+
 (** ** The sparse snapshot keeps what is outside the patterns *)
 
 Theorem snap_sparse_fixpoint : forall m t u f,
